@@ -6,6 +6,11 @@ files (stdout bytes, stderr bytes, exit status or signal).  The real
 cffi.pkgconfig.flags_from_pkgconfig / merge_flags run against it, wrapped in
 icontract postconditions (text model), and the harness compares the returned
 dict with the expectation built from the generator's *structured* tokens.
+
+Entry points driven: pkgconfig.flags_from_pkgconfig(list), FFI.set_source_pkgconfig(name, list,
+source, **user keywords) (the keywords that reach set_source must be user lists + pkg-config
+lists), pkgconfig.call(libname, flag[, encoding]) directly with explicit encodings, and
+pkgconfig.merge_flags chains.
 """
 import os, sys, re, copy, shutil, subprocess, random, types
 from vlib import core
@@ -22,7 +27,13 @@ RULE = ("spec = (list of 0..4 package names incl. repeats, version constraints, 
         "by mixed ASCII whitespace, empty answers); 35% error specs: exit status 1..255 / death "
         "by signal / unknown package at a random position and call, undecodable stdout, "
         "backslash in stdout, pkg-config missing / not executable / exec format error / a "
-        "directory; plus merge_flags chains of 2..5 random dicts; distinct = (names, answers); "
+        "directory / a dangling symlink, non-zero exit together with undecodable stdout; 30% of the "
+        "specs go through FFI.set_source_pkgconfig with random user keywords; 'huge' specs carry one "
+        "answer of more than 64 KiB (pipe capacity); payloads also start with / consist of the "
+        "prefix letters (I, L, l, D, lib...); direct pkgconfig.call() cases with encoding default / "
+        "utf-8 / ascii / latin-1 / cp1252 / utf-16-le (positional or keyword) over UTF-8, "
+        "target-encoded, ASCII-only and damaged output, failing exits and missing binaries; "
+        "plus merge_flags chains of 2..5 random dicts; distinct = (names, answers); "
         "non-trivial = at least one token or an error spec (merge: a key shared by two dicts)")
 ASSUMPTIONS = [
     "whitespace = ASCII space,\\t,\\n,\\r,\\f,\\v (what pkg-config and the shell separate on); tokens "
@@ -33,7 +44,13 @@ ASSUMPTIONS = [
     "package names are valid argv elements (no NUL, no lone surrogate); such names never reach a "
     "pkg-config run and are only probed",
     "a backslash in successful output is an error case (documented by the module)",
-    "the filesystem encoding of the child is UTF-8"]
+    "the filesystem encoding of the child is UTF-8",
+    "call(libname, flag, encoding): 'undecodable' means bytes.decode(encoding) (strict) raises; a "
+    "successful call must return text holding the same whitespace-separated tokens as that decoding "
+    "(leading/trailing whitespace is not demanded)",
+    "FFI.set_source_pkgconfig: the keywords handed to set_source are read from ffi._assigned_source[3]; "
+    "per key they must be the user's list followed by the pkg-config list (documented: 'adds it to the "
+    "explicitly-provided keywords'); a pure order difference is classified separately from loss"]
 
 STUB_C = r'''
 #include <stdio.h>
@@ -64,9 +81,13 @@ int main(int argc, char **argv) {
 }
 '''
 
-ALPHA = 'abcxyzABZ0189' * 3 + '/._-+=,:@%~#\'"()[]{}<>|&;$!*?^' + '/=-' * 4 + 'é日😀'
+ALPHA = 'abcxyzABZ0189' * 3 + 'IlLDib' * 2 + '/._-+=,:@%~#\'"()[]{}<>|&;$!*?^' + '/=-' * 4 + 'é日😀'
 SEPS = [' '] * 6 + ['  ', '\t', '\n', ' \n', '\r\n', '\f', '\v', ' \t ']
-PATHS = ['/usr/include/foo', '/opt/x-1.2/lib64', '.', '..', '/', 'rel/dir', '/a-I/b', '/a-L/-lb', '']
+PATHS = ['/usr/include/foo', '/opt/x-1.2/lib64', '.', '..', '/', 'rel/dir', '/a-I/b', '/a-L/-lb', '',
+         'lib', 'libfoo', ':libfoo.a', 'l', 'll', 'L', 'I', 'D', 'Include', 'Lib/lib64', '-I/x', '-lfoo',
+         '-L', '-D', 'DEBUG', 'stdc++', 'm']
+MACROS = ['NDEBUG', 'DEBUG', 'D', 'DD', '_REENTRANT', 'ID', 'I', 'LIBl', 'lib', '-D', 'DDX']
+ENCODINGS = [None, None, 'utf-8', 'ascii', 'latin-1', 'cp1252', 'utf-16-le']
 OTHER = {'c': ['-pthread', '-O2', '-std=c99', '-Wl,-Ifoo', '-isystem', 'foo-I/x', '--I', '-L/usr/lib',
                '-lm', '-', '--', 'I', 'D', 'x-Dy=1', '-d', '-i/x', '-fPIC', '-UNDEBUG', '--DX', '=',
                '-mfoo=-I/y'],
@@ -77,7 +98,8 @@ NAMES = ['libfoo', 'glib-2.0', 'libbar >= 1.8.3', 'x', 'gtk+-3.0', 'python-3.12-
          'a b  c', '-weird', "q'uote", '', '--cflags', 'lib日本', 'foo = 1.0', '*']
 ERRKINDS = ['exit-status', 'exit-status', 'signal', 'unknown-package', 'undecodable', 'undecodable',
             'backslash', 'backslash', 'missing-binary', 'not-executable', 'exec-format',
-            'is-directory']
+            'is-directory', 'dangling-symlink', 'exit-status+undecodable']
+PATHKINDS = ['missing-binary', 'not-executable', 'exec-format', 'is-directory', 'dangling-symlink']
 BADBYTES = [b'\xff', b'\xc3', b'\x80', b'\xe6\x97', b'\xf0\x9f\x98', b'\xed\xa0\x80', b'\xc0\xaf',
             b'\xfe\xfe', b'\xf8\x88\x80\x80\x80']
 
@@ -90,7 +112,8 @@ def gen_answer(rng, which, big=False):
     """One --cflags ('c') or --libs ('l') answer: (text, expected lists per keyword)."""
     exp = {k: [] for k in KEYS}
     toks = []
-    for _ in range(rng.randint(150, 4000) if big else rng.choice([0, 0, 1, 2, 3, 5, 8, 13])):
+    for _ in range(rng.randint(10000, 22000) if big == 'huge' else rng.randint(150, 4000) if big
+                   else rng.choice([0, 0, 1, 2, 3, 5, 8, 13])):
         r = rng.random()
         payload = rng.choice(PATHS) if rng.random() < 0.4 else word(rng)
         if r < 0.3:
@@ -101,7 +124,7 @@ def gen_answer(rng, which, big=False):
             toks.append('-l' + payload)
             exp['libraries'].append(payload)
         elif r < 0.55:
-            name = word(rng, 0, 6).replace('=', '')
+            name = rng.choice(MACROS) if rng.random() < 0.3 else word(rng, 0, 6).replace('=', '')
             val = rng.choice([None, None, '', '1', word(rng), word(rng) + '=' + word(rng), '==',
                               '-Ix', 'a=b=c'])
             toks.append('-D' + name + ('' if val is None else '=' + val))
@@ -123,10 +146,17 @@ def gen_spec(rng, big=False):
                   for _ in range(rng.choice([0, 1, 1, 2, 2, 3, 4]))})
     names.sort()
     rng.shuffle(names)
+    if big == 'huge' and not names:
+        names = ['libhuge']
     pkgs, exps = {}, {}
-    for nm in names:
-        ct, ce = gen_answer(rng, 'c', big and rng.random() < 0.5)
-        lt, le = gen_answer(rng, 'l', big and rng.random() < 0.5)
+    hugeside = rng.choice('cl')
+    for i, nm in enumerate(names):
+        if big == 'huge':          # exactly one answer beyond the pipe capacity
+            csize, lsize = [i == 0 and hugeside == w and 'huge' for w in 'cl']
+        else:
+            csize, lsize = big and rng.random() < 0.5, big and rng.random() < 0.5
+        ct, ce = gen_answer(rng, 'c', csize)
+        lt, le = gen_answer(rng, 'l', lsize)
         noise = rng.choice(['', '', 'warning: something\n', 'é\n']).encode()
         pkgs[nm] = {'c': {'out': ct.encode().hex(), 'err': noise.hex(), 'rc': 0, 'sig': 0},
                     'l': {'out': lt.encode().hex(), 'err': '', 'rc': 0, 'sig': 0}}
@@ -135,13 +165,16 @@ def gen_spec(rng, big=False):
     if names and rng.random() < 0.25:               # repeats
         libs += [rng.choice(names) for _ in range(rng.randint(1, 2))]
         rng.shuffle(libs)
-    spec = {'libs': libs, 'pkgs': pkgs, 'path': 'stub', 'err': None,
+    spec = {'libs': libs, 'pkgs': pkgs, 'path': 'stub', 'err': None, 'entry': 'flags', 'user': {},
             'exp': {k: sum((exps[nm][k] for nm in libs), []) for k in KEYS} if libs else {}}
-    if libs and rng.random() < 0.35:
+    if rng.random() < 0.3:                          # second entry point, with the user's own keywords
+        spec['entry'] = 'ffi'
+        spec['user'] = gen_user_kwds(rng)
+    if libs and big != 'huge' and rng.random() < 0.35:
         kind = spec['err'] = rng.choice(ERRKINDS)
         spec['exp'] = None
         victim = pkgs[rng.choice(libs)][rng.choice('cl')]
-        if kind == 'exit-status':
+        if kind.startswith('exit-status'):
             victim['rc'] = rng.choice([1, 1, 2, 127, 255, rng.randint(1, 255)])
             victim['err'] = rng.choice([b'', b"Package foo was not found in the pkg-config search "
                                         b"path.\n", b'\xff\xfe bad bytes\n', 'fehlt: é日\n'.encode(),
@@ -150,7 +183,7 @@ def gen_spec(rng, big=False):
             victim['sig'] = rng.choice([9, 15, 10])
         elif kind == 'unknown-package':
             libs.insert(rng.randint(0, len(libs)), 'no-such-package')
-        elif kind == 'undecodable':
+        if kind.endswith('undecodable'):
             raw = bytearray.fromhex(victim['out'])
             pos = rng.randint(0, len(raw))
             while pos < len(raw) and raw[pos] & 0xC0 == 0x80:    # stay on a character boundary
@@ -161,9 +194,42 @@ def gen_spec(rng, big=False):
             tok = rng.choice(['-I/my\\ dir', '-DX=\\"y\\"', '\\', '-lfoo\\', 'C:\\inc', '-L\\x'])
             victim['out'] = (bytes.fromhex(victim['out']).decode().rstrip() + ' ' + tok +
                              '\n').encode().hex()
-        else:
+        elif kind in PATHKINDS:
             spec['path'] = kind
     return spec
+
+
+def gen_user_kwds(rng):
+    def items(key):
+        return [[word(rng, 1, 4), rng.choice([None, word(rng)])] if key == 'define_macros'
+                else rng.choice(PATHS + OTHER['c']) if rng.random() < 0.5 else word(rng, 0, 6)
+                for _ in range(rng.choice([0, 1, 1, 2, 3]))]
+    return {k: items(k) for k in KEYS + ['sources', 'extra_objects'] if rng.random() < 0.45}
+
+
+def gen_call(rng):
+    """One direct pkgconfig.call(libname, flag[, encoding]) case."""
+    which = rng.choice('cl')
+    text, _ = gen_answer(rng, which)
+    enc = rng.choice(ENCODINGS)
+    r = rng.random()
+    raw = text.encode('utf-8') if r < 0.4 else text.encode(enc or 'utf-8', 'ignore') if r < 0.75 \
+        else text.encode('ascii', 'ignore')
+    if rng.random() < 0.2:
+        pos = rng.randint(0, len(raw))
+        raw = raw[:pos] + rng.choice(BADBYTES + [b'\x81', b'\x8d\x90', b'\xe9', b'\xa0']) + raw[pos:]
+    if rng.random() < 0.08:
+        raw = raw.rstrip() + b' ' + rng.choice([b'-I/my\\ dir', b'\\', b'C:\\inc']) + b'\n'
+    ans = {'out': raw.hex(), 'err': rng.choice([b'', b'', b'warning\n', b'\xff\xe9\n']).hex(),
+           'rc': 0, 'sig': 0}
+    r = rng.random()
+    if r < 0.1:
+        ans['rc'] = rng.choice([1, 2, 255, rng.randint(1, 255)])
+    elif r < 0.13:
+        ans['sig'] = rng.choice([9, 15])
+    return {'lib': rng.choice(NAMES) if rng.random() < 0.8 else word(rng, 1, 12), 'flag': which,
+            'enc': enc, 'kw': rng.random() < 0.5, 'ans': ans,
+            'path': rng.choice(PATHKINDS) if rng.random() < 0.04 else 'stub'}
 
 
 def _setup(ctx):
@@ -188,8 +254,11 @@ def replay_setup(ctx, case):
 def generate(ctx):
     rng = ctx.rng('gen')
     nspec, nmerge, per = ctx.scale(600, 10000), ctx.scale(20000, 200000), 15
-    specs = [gen_spec(rng, big=(i % 300 == 7)) for i in range(nspec)]
+    specs = [gen_spec(rng, big=('big' if i % 300 == 7 else 'huge' if i % 300 == 157 else False))
+             for i in range(nspec)]
     cases = [{'kind': 'pkg', 'specs': specs[i:i + per]} for i in range(0, nspec, per)]
+    calls = [gen_call(rng) for _ in range(ctx.scale(900, 12000))]
+    cases += [{'kind': 'call', 'specs': calls[i:i + 50]} for i in range(0, len(calls), 50)]
     seeds = [rng.getrandbits(48) for _ in range(nmerge)]
     cases += [{'kind': 'merge', 'seeds': seeds[i:i + 1000]} for i in range(0, nmerge, 1000)]
     cases.append({'kind': 'probe'})
@@ -260,7 +329,7 @@ def child_setup(setup, wd):
     if sys.getfilesystemencoding().lower().replace('-', '') != 'utf8':
         raise RuntimeError('filesystem encoding is not UTF-8')
     dirs = {}
-    for name in ('stub', 'missing-binary', 'not-executable', 'exec-format', 'is-directory'):
+    for name in ['stub'] + PATHKINDS:
         dirs[name] = os.path.join(wd, name)
         os.makedirs(dirs[name])
     shutil.copy(setup['stub'], os.path.join(dirs['stub'], 'pkg-config'))
@@ -271,6 +340,8 @@ def child_setup(setup, wd):
         f.write(b'\x00\x01\x02 not a program')
     os.chmod(f.name, 0o755)
     os.mkdir(os.path.join(dirs['is-directory'], 'pkg-config'))
+    os.symlink(os.path.join(wd, 'nowhere', 'pkg-config'),
+               os.path.join(dirs['dangling-symlink'], 'pkg-config'))
     st = {'pc': pkgconfig, 'Err': PkgConfigError, 'dirs': dirs, 'wd': wd, 'n': 0,
           'answers': None, 'evals': {'flags': 0, 'merge': 0}, 'got': None}
 
@@ -301,8 +372,10 @@ def child_setup(setup, wd):
     return st
 
 
-def call_stubbed(st, libs, pkgs, path):
-    """Install the answers, run the real flags_from_pkgconfig -> (outcome, value, stub calls)."""
+def call_stubbed(st, libs, pkgs, path, entry='flags', user=None, direct=None):
+    """Install the answers, run the real flags_from_pkgconfig (directly, or through
+    FFI.set_source_pkgconfig, or pkgconfig.call for direct=(libname, flag, args, kwargs))
+    -> (outcome, value, stub calls)."""
     st['n'] += 1
     d = os.path.join(st['wd'], 'a%d' % st['n'])
     os.mkdir(d)
@@ -316,7 +389,17 @@ def call_stubbed(st, libs, pkgs, path):
     os.environ['PATH'] = st['dirs'][path]
     st['got'] = None
     try:
-        res = ('returned', st['pc'].flags_from_pkgconfig(list(libs)))
+        if direct:
+            res = ('returned', st['pc'].call(direct[0], direct[1], *direct[2], **direct[3]))
+        elif entry == 'ffi':
+            if 'FFI' not in st:
+                from cffi import FFI
+                st['FFI'] = FFI
+            ffi = st['FFI']()
+            ffi.set_source_pkgconfig('_c35_mod', list(libs), 'int c35;', **copy.deepcopy(user))
+            res = ('returned', ffi._assigned_source[3])
+        else:
+            res = ('returned', st['pc'].flags_from_pkgconfig(list(libs)))
     except FlagsContract:
         res = ('flags-contract', st['got'])
     except MergeContract as e:
@@ -334,6 +417,9 @@ def call_stubbed(st, libs, pkgs, path):
 
 def run_spec(st, rep, spec):
     libs, kind = spec['libs'], spec['err']
+    entry = spec.get('entry', 'flags')
+    user = {k: [tuple(x) if k == 'define_macros' else x for x in v]
+            for k, v in spec.get('user', {}).items()}
     ok = kind is None
     st['answers'] = None
     if ok:
@@ -343,15 +429,20 @@ def run_spec(st, rep, spec):
         exp = {k: [tuple(x) if k == 'define_macros' else x for x in v]
                for k, v in spec['exp'].items()}
     ntok = sum(len(v) for v in spec['exp'].values()) if ok else 0
-    rep.case(repr((libs, sorted(spec['pkgs'].items()), spec['path'])), nontrivial=bool(ntok or not ok),
-             sample={'libs': libs, 'error': kind, 'answers': {
+    rep.case(repr((libs, sorted(spec['pkgs'].items()), spec['path'], entry, sorted(user.items()))),
+             nontrivial=bool(ntok or not ok),
+             sample={'libs': libs, 'error': kind, 'entry': entry, 'user_keywords': user, 'answers': {
                  nm: [bytes.fromhex(b[w]['out']).decode(errors='replace')[:80] for w in 'cl']
                  for nm, b in list(spec['pkgs'].items())[:2]}})
-    outcome, val, ncalls = call_stubbed(st, libs, spec['pkgs'], spec['path'])
+    outcome, val, ncalls = call_stubbed(st, libs, spec['pkgs'], spec['path'], entry, user)
     st['answers'] = None
+    flags_val = st['got'] if entry == 'ffi' else val
     rep.stat('stub_invocations', ncalls)
+    rep.stat('entry:' + ('FFI.set_source_pkgconfig' if entry == 'ffi' else 'flags_from_pkgconfig'))
     rep.stat('packages_in_list_%d' % min(len(libs), 5))
-    what = 'flags_from_pkgconfig(%r) with answers %r' % (libs, {
+    what = '%s(%r) with answers %r' % (
+        'flags_from_pkgconfig' if entry != 'ffi' else
+        'FFI().set_source_pkgconfig(name, source, **%r) with pkgconfig_libs=' % (user,), libs, {
         nm: [bytes.fromhex(b[w]['out'])[:300] for w in 'cl'] for nm, b in spec['pkgs'].items()})
     if outcome == 'merge-contract':
         rep.bad('merge-mismatch:inside-flags_from_pkgconfig', '%s: %s' % (what, str(val)[:300]), spec)
@@ -368,6 +459,11 @@ def run_spec(st, rep, spec):
                     (what, kind, outcome, val), spec)
         return
     rep.stat('success_spec')
+    if any(len(b[w]['out']) > 2 * 65536 for b in spec['pkgs'].values() for w in 'cl'):
+        rep.stat('success_spec_with_an_answer_over_64KiB')
+    rep.stat('payload_starting_with_a_prefix_letter', sum(
+        1 for k in KEYS[:3] for t in exp.get(k, []) if t[:1] in ('I', 'L', 'l', 'D')) + sum(
+        1 for n, v in exp.get('define_macros', []) if n[:1] in ('I', 'L', 'l', 'D')))
     if libs and ncalls == 0:
         rep.bad('harness-stub-not-used', 'the stub pkg-config was never invoked', spec)
     for k in KEYS:
@@ -382,6 +478,11 @@ def run_spec(st, rep, spec):
                                      'other-exception'),
                 '%s raised %s: %s' % (what, type(val).__name__, str(val)[:300]), spec)
         return
+    if flags_val is None:
+        rep.bad('harness-entry-bypassed-the-contract', '%s: the wrapped flags_from_pkgconfig was not '
+                'the one called' % what, spec)
+        return
+    merged, val = val, flags_val
     diffs = [k for k in KEYS if val.get(k, []) != exp.get(k, [])]
     if (outcome == 'flags-contract') != bool(diffs):
         rep.bad('harness-oracles-disagree', '%s: text model %s, structural expectation differs in %r'
@@ -393,6 +494,80 @@ def run_spec(st, rep, spec):
     if set(val) - set(KEYS):
         rep.bad('flags-unknown-key', '%s returned keys %r' % (what, sorted(set(val) - set(KEYS))), spec)
     rep.stat('translated_exactly' if not diffs else 'translated_wrongly')
+    if entry != 'ffi' or outcome != 'returned':
+        return
+    # the keywords that reached set_source(): the user's lists followed by pkg-config's
+    wrong = 0
+    for k in sorted(set(KEYS) | set(user) | set(merged)):
+        e, g = user.get(k, []) + exp.get(k, []), merged.get(k, [])
+        rep.stat('set_source_pkgconfig_keys_with_user_and_pkgconfig_items',
+                 bool(user.get(k) and exp.get(k)))
+        if g != e:
+            wrong += 1
+            lost = not isinstance(g, list) or sorted(map(repr, g)) != sorted(map(repr, e))
+            rep.bad('set_source_pkgconfig-%s:%s' % ('lost-or-added' if lost else 'order',
+                                                    k if k in KEYS else 'other-keyword'),
+                    '%s: set_source() received %s = %r, expected %r (user %r + pkg-config %r)' %
+                    (what, k, g, e, user.get(k), exp.get(k)), spec)
+    rep.stat('set_source_pkgconfig_keywords_exact' if not wrong else
+             'set_source_pkgconfig_keywords_wrong')
+
+
+def run_call(st, rep, c):
+    """pkgconfig.call(libname, flag[, encoding]) directly."""
+    a, enc = c['ans'], c['enc']
+    raw = bytes.fromhex(a['out'])
+    flag = '--cflags' if c['flag'] == 'c' else '--libs'
+    if c['path'] != 'stub':
+        want, reason = None, 'cannot-run'
+    elif a['rc'] or a['sig']:
+        want, reason = None, 'failing-exit'
+    else:
+        try:
+            want, reason = raw.decode(enc or 'utf-8'), 'ok'
+            if '\\' in want:
+                want, reason = None, 'backslash'
+        except UnicodeDecodeError:
+            want, reason = None, 'undecodable'
+    encname = enc or 'default'
+    rep.case(repr(('call', c['lib'], flag, enc, c['kw'], c['path'], sorted(a.items()))),
+             nontrivial=True, sample={'call': [c['lib'], flag, enc], 'stdout': repr(raw[:80]),
+                                      'expected': reason})
+    args, kw = ((), {'encoding': enc}) if c['kw'] else ((enc,), {})
+    if enc is None:
+        args, kw = (), {}
+    st['answers'] = None
+    outcome, val, ncalls = call_stubbed(st, [], {c['lib']: {'c': a, 'l': a}}, c['path'],
+                                        direct=(c['lib'], flag, args, kw))
+    rep.stat('stub_invocations', ncalls)
+    rep.stat('entry:pkgconfig.call')
+    rep.stat('call_direct:%s:%s' % (encname, reason))
+    if raw and not all(b < 128 for b in raw):
+        rep.stat('call_direct_non_ascii_output:' + encname)
+    cls = 'explicit-encoding' if enc else 'default-encoding'
+    what = 'call(%r, %r%s) with stdout %r rc=%d sig=%d PATH=%s' % (
+        c['lib'], flag, '' if enc is None else ', %s%r' % ('encoding=' if c['kw'] else '', enc),
+        raw[:300], a['rc'], a['sig'], c['path'])
+    if want is None:
+        if outcome == 'raised' and isinstance(val, st['Err']):
+            rep.stat('call_direct_raised_PkgConfigError:' + reason)
+        elif outcome == 'raised':
+            rep.bad('call-wrong-exception:%s:%s' % (reason, cls), '%s raised %s: %s instead of '
+                    'PkgConfigError' % (what, type(val).__name__, str(val)[:200]), c)
+        else:
+            rep.bad('call-error-not-raised:%s:%s' % (reason, cls), '%s returned %r' %
+                    (what, val if not isinstance(val, str) else val[:300]), c)
+        return
+    if outcome != 'returned':
+        rep.bad('call-success-raised:' + cls, '%s raised %s: %s (the bytes decode with %s)' %
+                (what, type(val).__name__, str(val)[:300], encname), c)
+    elif not isinstance(val, str):
+        rep.bad('call-returned-non-text:' + cls, '%s returned %r' % (what, val), c)
+    elif list(filter(None, WS.split(val))) != list(filter(None, WS.split(want))):
+        rep.bad('call-output-mismatch:' + cls, '%s returned %r, expected the tokens of %r' %
+                (what, val[:300], want[:300]), c)
+    else:
+        rep.stat('call_direct_returned_every_token')
 
 
 def run_merge(st, rep, seed):
@@ -460,6 +635,8 @@ def child_case(st, case):
         try:
             if case['kind'] == 'pkg':
                 run_spec(st, rep, item)
+            elif case['kind'] == 'call':
+                run_call(st, rep, item)
             elif case['kind'] == 'merge':
                 run_merge(st, rep, item)
             else:
@@ -483,4 +660,4 @@ def judge(ctx, setup, case, obs):
             (s.get('merge_calls') and not s.get('contract_evaluations_merge_flags')):
         ctx.inconclusive('postconditions were never evaluated (decorated name not the one called)')
     core.absorb(ctx, case, obs, lambda d: {'kind': case['kind'], 'specs': [d]}
-                if case['kind'] == 'pkg' else {'kind': 'merge', 'seeds': [d]})
+                if case['kind'] in ('pkg', 'call') else {'kind': 'merge', 'seeds': [d]})
